@@ -28,6 +28,10 @@ class Stats(object):
         self.dead_paths = 0
 
 
+class FrontierReached(Exception):
+    pass
+
+
 class PathCtx(object):
     def __init__(self, engine, script):
         self.engine = engine
@@ -111,6 +115,7 @@ class PathCtx(object):
             self.pos += 1
             self.pc.append(cond if d else z3.Not(cond))
             return d
+        self.engine.at_frontier(self)
         t = self._sat(cond)
         f = self._sat(z3.Not(cond))
         if t and f:
@@ -139,6 +144,7 @@ class PathCtx(object):
             d = self.script[self.pos]
             self.pos += 1
             return d
+        self.engine.at_frontier(self)
         for alt in range(n - 1, 0, -1):
             self.engine.push(self.script[:self.pos] + [alt])
         self.script.append(0)
@@ -177,17 +183,26 @@ class PathCtx(object):
 
 
 class Engine(object):
-    def __init__(self, max_paths=20000):
+    def __init__(self, max_paths=20000, frontier_depth=None):
         self.work = []
         self.stats = Stats()
         self.max_paths = max_paths
+        self.frontier_depth = frontier_depth
+        self.frontier = []
+
+    def at_frontier(self, ctx):
+        """Frontier mode: stop at the first new decision at depth >= frontier_depth and record the prefix."""
+        if self.frontier_depth is not None and ctx.pos >= self.frontier_depth:
+            self.frontier.append(list(ctx.script[:ctx.pos]))
+            raise FrontierReached()
 
     def push(self, script):
         self.work.append(script)
 
-    def run(self, thunk):
-        """thunk(ctx) is executed once per path.  Returns list of finished PathCtx."""
-        self.work = [[]]
+    def run(self, thunk, start=None):
+        """thunk(ctx) is executed once per path.  Returns list of finished PathCtx.
+        start: explore only the sub-tree below this decision prefix."""
+        self.work = [list(start or [])]
         done = []
         while self.work:
             script = self.work.pop()
@@ -196,6 +211,8 @@ class Engine(object):
                 thunk(ctx)
                 done.append(ctx)
                 self.stats.paths += 1
+            except FrontierReached:
+                continue
             except PathDead:
                 self.stats.dead_paths += 1
                 # obligations recorded before the path died are still obligations
